@@ -527,8 +527,12 @@ def relabel(segs):
     return [segmap.Seg(x.n, '*', x.start, x.stride, 1) for x in segs]
 
 
+def _axis_from_end(v):
+    return (len(v.shape) - v.segax) if v.shape is not None else None
+
+
 def elementwise_seg(op, va, vb, r):
-    """index map of an elementwise result"""
+    """index map of an elementwise result (elementwise operations never permute slots)"""
     from . import segmap
     if not isinstance(r, Num):
         return
@@ -536,31 +540,50 @@ def elementwise_seg(op, va, vb, r):
     sb = vb.seg if isinstance(vb, Num) else None
     if sa is None and sb is None:
         return
+    if sa is not None and sb is not None and va.is_array and vb.is_array:
+        if seg_structure(sa) == seg_structure(sb) and _axis_from_end(va) == _axis_from_end(vb):
+            _set_seg(r, relabel(segmap.normalise(sa)), _axis_from_end(va))
+        return
     if sa is not None and sb is not None:
-        a_arr, b_arr = va.is_array, vb.is_array
-        if a_arr and b_arr:
-            if seg_structure(sa) == seg_structure(sb):
-                r.seg = relabel(segmap.normalise(sa))
-            return
-        # array (op) scalar element of a map: derived values
-        r.seg = relabel(sa if a_arr else sb) if (a_arr or b_arr) else None
+        arr = va if va.is_array else (vb if vb.is_array else None)
+        if arr is not None:
+            _set_seg(r, relabel(arr.seg), _axis_from_end(arr))
         return
     segv, other, seg = (va, vb, sa) if sa is not None else (vb, va, sb)
     on = tonum(other) if not isinstance(other, (Tup, SeqV)) else None
     if on is None:
         return
-    if on.is_array and not on.zero:
-        return
-    if on.zero and on.is_array and isinstance(op, (ast.Add, ast.Sub)):
-        r.seg = relabel(seg) if isinstance(op, ast.Sub) and segv is vb else list(seg)
-        return
+    e = _axis_from_end(segv)
     k = _rational_const(other)
     if k is not None and isinstance(op, ast.Mult):
-        r.seg = segmap.scale(seg, k)
+        _set_seg(r, segmap.scale(seg, k), e)
     elif k is not None and k != 0 and isinstance(op, (ast.Div,)) and segv is va:
-        r.seg = segmap.scale(seg, 1 / k)
+        _set_seg(r, segmap.scale(seg, 1 / k), e)
+    elif on.zero and on.is_array and isinstance(op, ast.Add):
+        _set_seg(r, list(seg), e)
     else:
-        r.seg = relabel(seg)
+        _set_seg(r, relabel(seg), e)
+
+
+def _set_seg(r, seg, from_end):
+    """attach the map if the result really has the mapped axis with the mapped length"""
+    from . import segmap
+    if seg is None or r.shape is None:
+        return
+    if r.shape == ():
+        if segmap.length(seg) == Aff(1):
+            r.seg = seg
+            r.segax = 0
+        return
+    if from_end is None:
+        return
+    ax = len(r.shape) - from_end
+    if ax < 0 or ax >= len(r.shape) or r.shape[ax] is None:
+        return
+    if r.shape[ax] != segmap.length(seg):
+        return
+    r.seg = seg
+    r.segax = ax
 
 
 def e_BinOp(self, n, st):
@@ -780,6 +803,7 @@ def attr_of(self, v, attr, st, n):
                         r.deg[c] = TOP
             if attr == 'real' and isinstance(v, Num) and v.seg is not None:
                 r.seg = relabel(v.seg) if v.cplx is not False else list(v.seg)
+                r.segax = v.segax
             if attr == 'imag':
                 r.nonneg = False
                 if nv.cplx is False:
@@ -801,8 +825,9 @@ def attr_of(self, v, attr, st, n):
             return Const(len(nv.shape)) if nv.shape is not None else IntV(None)
         if attr == 'T':
             r = nv.copy(shape=tuple(reversed(nv.shape)) if nv.shape is not None else None)
-            if isinstance(v, Num) and v.seg is not None and nv.shape is not None and len(nv.shape) == 1:
+            if isinstance(v, Num) and v.seg is not None and nv.shape is not None and len(nv.shape) in (1, 2):
                 r.seg = list(v.seg)
+                r.segax = (len(nv.shape) - 1 - v.segax)
             return r
         if attr == 'dtype':
             return Opaque('dtype:' + {True: 'complex', False: 'float', None: '?'}[nv.cplx])
